@@ -155,9 +155,6 @@ def renderViol : Viol → String
   | .twice u n => s!"twice user=u{u} cycle={n}: second buffered command of one user in one backend cycle"
   | .starved u n => s!"starved user=u{u} cycle={n}: complete command waiting, user connected, not served"
   | .fifo u t => s!"fifo user=u{u} text={enc t}: executed command is not the oldest pending input"
-  | .starvedRaw u n => s!"starved-after-getchar user=u{u} cycle={n}: a line typed while get_char() was pending is not served"
-  | .fifoRaw u t => s!"fifo-after-getchar user=u{u} text={enc t}: input typed while get_char() was pending is not framed into lines"
-  | .idleWaitRaw n u => s!"idle-wait-after-getchar cycle={n} user=u{u}: backend blocks in poll although a line typed while get_char() was pending is buffered"
   | .idleWait n u => s!"idle-wait cycle={n} user=u{u}: backend blocks in poll although a complete command is buffered"
   | .efun t x => s!"efun user=u{t} text={enc x}: command() was not executed at once"
   | .outside u => s!"outside user=u{u}: buffered command executed outside a backend cycle"
